@@ -2,7 +2,7 @@
 // LogServer::serve / process, LogServerClient::connect, CommandTask::run's stream selection are not under a Verus contract.
 // C20: after its stream header a listener prints header-introduced blocks only; per (stream, target, command) the blocks reassemble
 // to that task's output (newline-terminated text), and blocks appear only for what the listener's filters admit.
-// BOUND: 3 targets x 2 commands x 2 streams writing concurrently (40..120 lines each, with pauses), 8 filter combinations.
+// BOUND: 3 targets x 2 commands x 2 streams writing concurrently (40..120 lines each, with pauses; one stream with CR LF line ends), 8 filter combinations.
 use std::io::Read;
 use std::os::unix::fs::PermissionsExt;
 use std::process::{Command, Stdio};
@@ -21,7 +21,9 @@ fn listening(port: u16) -> bool {
 }
 fn expected(target: &str, cmd: &str, stream: &str) -> String {
     let n = 40 + 40 * (target.as_bytes()[1] - b'1') as usize;
-    let head = if stream == "stdout" && target == "t1" { format!("{}-{}-stdout begin ... end\n", target, cmd) } else { String::new() };
+    let head = if stream == "stdout" && target == "t1" { format!("{}-{}-stdout begin ... end\n", target, cmd) }
+        // newline-terminated text whose lines end in CR LF (what `curl -i` prints): the carriage returns are part of the output
+        else if stream == "stdout" && target == "t3" && cmd == "other" { "HTTP/1.1 200 OK\r\nServer: x\r\n\r\n".to_string() } else { String::new() };
     head + &(0..n).map(|i| format!("{}-{}-{} line {} {}\n", target, cmd, stream, i, "x".repeat(i % 37))).collect::<String>()
 }
 fn strip_color(s: &str) -> String {
@@ -101,7 +103,8 @@ fn vf_log_tail_blocks() {
         std::fs::create_dir_all(p.parent().unwrap()).unwrap();
         let n = 40 + 40 * (t.as_bytes()[1] - b'1') as usize;
         // both streams written in interleaved bursts with pauses (several flush ticks apart)
-        let slow = if t == "t1" { format!("printf '{t}-{c}-stdout begin ...'; sleep 0.8; echo ' end'\n", t = t, c = c) } else { String::new() };
+        let slow = if t == "t1" { format!("printf '{t}-{c}-stdout begin ...'; sleep 0.8; echo ' end'\n", t = t, c = c) }
+            else if t == "t3" && c == "other" { "printf 'HTTP/1.1 200 OK\\r\\nServer: x\\r\\n\\r\\n'\n".to_string() } else { String::new() };
         let body = format!("#!/bin/bash\npad() {{ printf 'x%.0s' $(seq 1 $1); }}\n{slow}for i in $(seq 0 {}); do p=$(( i % 37 )); s=\"\"; if [ $p -gt 0 ]; then s=$(pad $p); fi; echo \"{t}-{c}-stdout line $i $s\"; echo \"{t}-{c}-stderr line $i $s\" 1>&2; if [ $(( i % 25 )) -eq 24 ]; then sleep 0.3; fi; done\n", n - 1, t = t, c = c, slow = slow);
         std::fs::write(&p, body).unwrap();
         let mut perm = std::fs::metadata(&p).unwrap().permissions(); perm.set_mode(0o755); std::fs::set_permissions(&p, perm).unwrap();
